@@ -30,6 +30,7 @@ type frag struct {
 	more   bool
 	optLen int
 	df     bool
+	evil   bool // the reserved flag bit: says nothing about fragmentation
 }
 
 type dgram struct {
@@ -62,6 +63,9 @@ func c13Wire(d *dgram, f frag, r *vlib.Rand) []byte {
 	}
 	if f.df {
 		fl |= 2
+	}
+	if f.evil {
+		fl |= 4
 	}
 	return pk.IPv4(pk.IPv4H{TOS: 0, ID: d.id, Flags: fl, FragOff: uint16(f.off / 8), TTL: 64, Proto: d.proto, Src: d.src, Dst: d.dst, Options: opts}, f.data)
 }
@@ -200,7 +204,7 @@ func c13Benign(c *vlib.Ctx) {
 		npass := r.Intn(3)
 		for k := 0; k < npass; k++ {
 			dst := r.Intn(len(seq) + 1)
-			f := frag{key: -1, data: r.Bytes(r.Range(0, 64)), df: r.Bool(), optLen: 4 * r.Intn(3)}
+			f := frag{key: -1, data: r.Bytes(r.Range(0, 64)), df: r.Bool(), optLen: 4 * r.Intn(3), evil: r.Chance(1, 3)}
 			seq = append(seq[:dst], append([]frag{f}, seq[dst:]...)...)
 		}
 		c13RunBenign(c, r, ds, seq, i)
